@@ -196,7 +196,24 @@ def sym_norm(v, axis=None):
 
 
 def _inv(a):
-    return real_np.linalg.inv(conc_arr(a, "matrix to invert"))
+    """inverse of a concrete matrix, EXACT over the rationals (the doubles of the input are taken as exact values):
+    IEEE rounding is not modelled, and an inexact inverse would leave 1e-16*t residues that make every later
+    distance computation nonlinear in the symbolic shift"""
+    m = conc_arr(a, "matrix to invert")
+    if m.shape != (3, 3):
+        return real_np.linalg.inv(m)
+    F = [[Fraction(float(x)) for x in row] for row in m]
+    det = (F[0][0] * (F[1][1] * F[2][2] - F[1][2] * F[2][1]) - F[0][1] * (F[1][0] * F[2][2] - F[1][2] * F[2][0])
+           + F[0][2] * (F[1][0] * F[2][1] - F[1][1] * F[2][0]))
+    if det == 0:
+        return real_np.linalg.inv(m)
+    out = real_np.empty((3, 3), dtype=object)
+    for i in range(3):
+        for j in range(3):
+            a_, b_ = [r for r in range(3) if r != j], [c for c in range(3) if c != i]
+            cof = F[a_[0]][b_[0]] * F[a_[1]][b_[1]] - F[a_[0]][b_[1]] * F[a_[1]][b_[0]]
+            out[i, j] = ((-1) ** (i + j)) * cof / det
+    return out
 
 
 def _det(a):
